@@ -353,6 +353,7 @@ func c01(c *Ctx) {
 	}
 	// the function patched by name is the one the caller designated (shared with C06.R4)
 	checkExactNameDerivation(p, r, "C01.R4")
+	checkNamedParamsUsed(p, r, "C01.R4")
 	// ---- R4 (clause) a forwarder does not cross two of its parameters: where a function hands two of its own parameters of
 	// the same type to a callee whose parameters carry those very names, each goes to its namesake
 	for _, f := range p.Funcs {
